@@ -71,7 +71,10 @@ def tree_hash(d: Path):
     for sub in ("include", "src", "python"):
         for p in sorted((d / sub).rglob("*")):
             if p.is_file():
-                out[str(p.relative_to(d))] = hashlib.sha256(p.read_bytes()).hexdigest()
+                txt = p.read_bytes()
+                if p.name == "CMakeLists.txt":       # the project version is the rendering month
+                    txt = re.sub(rb"VERSION \S+", b"VERSION V", txt)
+                out[str(p.relative_to(d))] = hashlib.sha256(txt).hexdigest()
     return out
 
 
